@@ -1,6 +1,8 @@
 package types
 
 import (
+	"math/big"
+
 	sdkerrors "github.com/cosmos/cosmos-sdk/types/errors"
 
 	sdk "github.com/cosmos/cosmos-sdk/types"
@@ -45,6 +47,23 @@ func (msg *MsgCreatePrice) ValidateBasic() error {
 	_, err := sdk.AccAddressFromBech32(msg.Creator)
 	if err != nil {
 		return sdkerrors.ErrInvalidAddress.Wrapf("invalid creator address (%s)", err)
+	}
+	// every consumer parses the price as a base-10 integer and ignores the parse result: a
+	// non-numeric string becomes a nil price inside the aggregator, where an agreed nil
+	// price panics in the median (in BeginBlock, when the cached messages are replayed
+	// after a restart)
+	for _, ps := range msg.Prices {
+		if ps == nil {
+			return ErrPriceProposalFormatInvalid.Wrap("nil price source")
+		}
+		for _, p := range ps.Prices {
+			if p == nil {
+				return ErrPriceProposalFormatInvalid.Wrap("nil price")
+			}
+			if _, ok := new(big.Int).SetString(p.Price, 10); !ok {
+				return ErrPriceProposalFormatInvalid.Wrapf("price is not a base-10 integer: %q", p.Price)
+			}
+		}
 	}
 	return nil
 }
